@@ -119,6 +119,18 @@ def directed():
     for o in (1, 4, 5, 6, -1, -2):
         out.append({"id": "D-setoffset-%d" % o, "log": L1, "logStart": 0, "start": -2, "qcap": 100, "fetchVersion": 10, "maxBytes": 1 << 20,
                     "steps": [{"op": "fetch", "n": 2}, {"op": "sleep", "ms": 30}, {"op": "setoffset", "o": o}] + drain})
+    # the position is in the middle of a batch and the response is truncated inside the part of the batch that
+    # precedes it (the records read and skipped), at it, or after it -- then the whole batch arrives
+    for fmt, codec in (("v2", 0), ("v1w", 1), ("v1", 0)):
+        for r in range(0, 8):
+            for how in ("start", "setoffset"):
+                big = [B(0, 7, list(range(8)), fmt, codec)] if fmt != "v1" else [B(o, o, [o], "v1") for o in range(8)]
+                steps = [{"op": "fault", "fault": {"kind": "trunc", "batches": 0, "records": r, "extra": 5}}]
+                if how == "setoffset":
+                    steps = [{"op": "fetch", "n": 1}, {"op": "sleep", "ms": 20}] + steps + [{"op": "setoffset", "o": 5}]
+                out.append({"id": "D-midbatch-%s-r%d-%s" % (fmt, r, how), "log": big + [B(8, 9, [8, 9], "v2" if fmt == "v2" else "v1w", 0 if fmt == "v2" else 1)],
+                            "logStart": 0, "start": 5 if how == "start" else -2, "qcap": 1,
+                            "fetchVersion": 10 if fmt == "v2" else 2, "maxBytes": 1 << 20, "steps": steps + drain})
     # leader migration and NotLeaderForPartition
     out.append({"id": "D-leader-move", "log": L1, "logStart": 0, "start": -2, "qcap": 1, "fetchVersion": 10, "maxBytes": 1 << 20,
                 "steps": [{"op": "fetch", "n": 2}, {"op": "moveleader", "to": 2}] + drain})
